@@ -6,6 +6,7 @@ import (
 
 	sdkmath "cosmossdk.io/math"
 	sdk "github.com/cosmos/cosmos-sdk/types"
+	"github.com/ethereum/go-ethereum/common"
 
 	crosschaintypes "github.com/functionx/fx-core/v8/x/crosschain/types"
 
@@ -26,6 +27,8 @@ func (e *env) attestationCases() []string {
 		arg  func(ctx sdk.Context) int64
 		mk   func(ctx sdk.Context) crosschaintypes.ExternalClaim
 	}
+	// outgoing bridge calls (carrying tokens) whose timeout already lies below the external height, per scenario
+	staleOf := map[string]int{"bridge-token-existing+timed-out-calls": 2, "oracle-set-unknown+timed-out-call": 1, "send-to-fx+timed-out-call": 1}
 	tokenID := func(contract string) int64 {
 		for i, t := range e.toks {
 			if t.Contract == contract {
@@ -64,6 +67,14 @@ func (e *env) attestationCases() []string {
 		{"bridge-token-fx-wrong-decimals", 3, func(sdk.Context) int64 { return 0 }, func(sdk.Context) crosschaintypes.ExternalClaim {
 			return &crosschaintypes.MsgBridgeTokenClaim{TokenContract: lib.EthKey(c.Seed, "fx-bridge-token", 0).Hex().Hex(), Name: "Function X", Symbol: "FX", Decimals: 6}
 		}},
+		// a tolerated handler failure at an event that ALSO triggers the clean-ups of TryAttestation: timed-out outgoing bridge
+		// calls must still be refunded and removed at that event
+		{"bridge-token-existing+timed-out-calls", 0, func(sdk.Context) int64 { return 1 }, btc(e.toks[1].Contract)},
+		{"oracle-set-unknown+timed-out-call", 1, func(sdk.Context) int64 { return 7777 }, osc(func(sdk.Context) uint64 { return 7777 })},
+		{"send-to-fx+timed-out-call", 2, nil, func(sdk.Context) crosschaintypes.ExternalClaim {
+			return &crosschaintypes.MsgSendToFxClaim{TokenContract: e.toks[1].Contract, Amount: sdkmath.NewInt(5),
+				Sender: lib.EthKey(c.Seed, "ext", 1).Hex().Hex(), Receiver: lib.EthKey(c.Seed, "warm", 1).Acc().String()}
+		}},
 		{"bridge-token-new", 0, func(sdk.Context) int64 { return tokenID(newContract) }, btc(newContract)},
 		{"oracle-set-unknown", 1, func(sdk.Context) int64 { return 7777 }, osc(func(sdk.Context) uint64 { return 7777 })},
 		{"oracle-set-zero", 1, func(sdk.Context) int64 { return 0 }, osc(func(sdk.Context) uint64 { return 0 })},
@@ -85,6 +96,24 @@ func (e *env) attestationCases() []string {
 		B, _ := c.Ctx.CacheContext()
 		nonce := k.GetLastObservedEventNonce(B) + 1
 		e.extH++
+		// outgoing bridge calls made earlier (their coins left the sender already) that have timed out by now
+		staleRefund := lib.EthKey(c.Seed, "stale-refund", 0).Hex()
+		c.EnsureAccount(B, staleRefund.Bytes())
+		for j := 0; j < staleOf[s.name]; j++ {
+			t := e.toks[j%3]
+			lib.Must(c.App.BankKeeper.MintCoins(B, "eth", sdk.NewCoins(sdk.NewCoin(t.BridgeDenom, sdkmath.NewInt(0).AddRaw(1)))))
+			oc, err := k.BuildOutgoingBridgeCall(B, staleRefund, staleRefund, []crosschaintypes.ERC20Token{crosschaintypes.NewERC20Token(sdkmath.NewInt(int64(7+j)), t.Contract)}, common.Address{}, nil, nil, 0)
+			lib.Must(err)
+			oc.Timeout = 1 // far below the external height of any claim
+			k.AddOutgoingBridgeCallWithoutBuild(B, oc)
+			k.SetBridgeCallFromMsg(B, oc.Nonce) // made by a message: refunded as bridge coins, not into the EVM
+		}
+		countCalls := func(ctx sdk.Context) int64 {
+			n := int64(0)
+			k.IterateOutgoingBridgeCalls(ctx, func(*crosschaintypes.OutgoingBridgeCall) bool { n++; return false })
+			return n
+		}
+		stalePre := countCalls(B)
 		claim := s.mk(B)
 		setNonce(claim, nonce, e.extH)
 		last := x.Oracles[len(x.Oracles)-1]
@@ -120,6 +149,9 @@ func (e *env) attestationCases() []string {
 		post := c.DumpAll(B1)
 		if err != nil {
 			// the transaction failed (handler panic): nothing of it may stay, not even the vote; the event is NOT observed
+			if s.kind != 4 {
+				panic("vote transaction failed unexpectedly in scenario " + s.name + ": " + err.Error())
+			}
 			if !strings.Contains(err.Error(), "PANIC") {
 				panic("vote refused for another reason: " + err.Error())
 			}
@@ -135,8 +167,8 @@ func (e *env) attestationCases() []string {
 			if los := k.GetLastObservedOracleSet(B1); los != nil {
 				lastOS2 = int64(los.Nonce)
 			}
-			out = append(out, fmt.Sprintf("mk_att_case %s %s %d %d %d %d 2 %d false %s %d",
-				lib.ZList(tokens), lib.ZList(osets), lastOS, nonce-1, s.kind, arg, k.GetLastObservedEventNonce(B1), lib.Bool(pend), lastOS2))
+			out = append(out, fmt.Sprintf("mk_att_case %d %d %s %s %d %d %d %d 2 %d false %s %d",
+				stalePre, countCalls(B1), lib.ZList(tokens), lib.ZList(osets), lastOS, nonce-1, s.kind, arg, k.GetLastObservedEventNonce(B1), lib.Bool(pend), lastOS2))
 			continue
 		}
 		ok, seen := false, false
@@ -173,6 +205,19 @@ func (e *env) attestationCases() []string {
 			k.SetLastObservedEventNonce(B2, nonce)
 			k.SetLastObservedBlockHeight(B2, claim.GetBlockHeight(), uint64(B2.BlockHeight()))
 			k.SetAttestation(B2, nonce, claim.ClaimHash(), att)
+			// … and the clean-ups every observed event triggers (TryAttestation): outgoing bridge calls whose timeout lies below
+			// the external height just reported are refunded and removed
+			var timedOut []*crosschaintypes.OutgoingBridgeCall
+			k.IterateOutgoingBridgeCalls(B2, func(o *crosschaintypes.OutgoingBridgeCall) bool {
+				if o.Timeout <= claim.GetBlockHeight() {
+					timedOut = append(timedOut, o)
+				}
+				return false
+			})
+			for _, o := range timedOut {
+				k.HandleOutgoingBridgeCallRefund(B2, o)
+				k.DeleteOutgoingBridgeCallRecord(B2, o.Nonce)
+			}
 			k.SetLastEventNonceByOracle(B2, last.Oracle.Acc(), nonce)
 			k.SetLastEventBlockHeightByOracle(B2, last.Oracle.Acc(), claim.GetBlockHeight())
 			if diff := lib.DiffDumps(c.DumpAll(B2), post); len(diff) > 0 {
@@ -187,8 +232,8 @@ func (e *env) attestationCases() []string {
 		if ok {
 			cls = 0
 		}
-		out = append(out, fmt.Sprintf("mk_att_case %s %s %d %d %d %d %d %d %s %s %d",
-			lib.ZList(tokens), lib.ZList(osets), lastOS, nonce-1, s.kind, arg,
+		out = append(out, fmt.Sprintf("mk_att_case %d %d %s %s %d %d %d %d %d %d %s %s %d",
+			stalePre, countCalls(B1), lib.ZList(tokens), lib.ZList(osets), lastOS, nonce-1, s.kind, arg,
 			cls, obsNonce, lib.Bool(obsTok), lib.Bool(obsPending), obsLastOS))
 	}
 	return out
